@@ -18,7 +18,8 @@ REPO = os.environ.get("VERIF_REPO", "/repo")
 SRC = os.path.join(REPO, "src")
 VARIANT = os.environ.get("VERIF_C18_VARIANT", "default")
 SUFFIX = "" if VARIANT == "default" else "_" + VARIANT
-OUT = os.path.join(ROOT, "coq", "Gen", "Structs%s.v" % ("" if VARIANT == "default" else VARIANT.upper()))
+# the default variant is part of the Coq development; other variants are only evaluated by the harness (thorough tier)
+OUT = os.path.join(ROOT, "coq", "Gen", "Structs.v") if VARIANT == "default" else os.path.join(ROOT, "build", "c18", "Structs_%s.v" % VARIANT)
 OUTJ = os.path.join(ROOT, "build", "c18", "structs%s.json" % SUFFIX)
 DFLAGS = ["-DLIBREBOUND", "-D_GNU_SOURCE", "-DSERVER", "-std=c99"]
 VFLAGS = {"default": [], "avx512": ["-DAVX512", "-mavx512f"]}
@@ -261,9 +262,19 @@ def byvalue(t):
     return []
 
 
-def c_expr_type(t, inner="@"):
-    """C declaration text for type t with declarator `inner` (used by the harness to generate sizeof checks)."""
-    return None
+def member_kind(t):
+    """coarse classification for the library-only searcher (how gcc reads the bytes of the member)."""
+    k = t[0]
+    if k == "prim":
+        n = t[1]
+        if n == "char": return "char"
+        if n in ("float", "double", "long double"): return "float"
+        if n == "_Bool": return "other"
+        return "unsigned" if n.startswith("unsigned") else "signed"
+    if k == "enum": return "enum"
+    if k == "ptr": return "funptr" if t[1][0] == "fun" else "ptr"
+    if k == "struct": return "struct:" + t[1]
+    return "other"
 
 
 # ----------------------------------------------------------------------------- main
@@ -324,7 +335,10 @@ def main():
                 members.append(("!attr:" + k, None, 0))
             elif k == "MaxFieldAlignmentAttr":
                 members.append(("!packed", None, 0))
-        rec = {"name": name, "union": n.get("tagUsed") == "union", "file": f, "members": members, "in_repo": in_repo(f)}
+        tag = n.get("tagUsed")
+        spelling = ("%s %s" % (tag, name)) if n.get("name") else (name if n["id"] in anon_names else None)
+        rec = {"name": name, "union": tag == "union", "file": f, "members": members, "in_repo": in_repo(f),
+               "spelling": spelling}
         if name in records and records[name]["members"] != members:
             fail("two different definitions of record %s" % name)
         records[name] = rec
@@ -449,8 +463,9 @@ def main():
     os.replace(tmp, OUT)
     json.dump({"headers": hdrs, "variant": VARIANT,
                "structs": [{"name": nm, "union": records[nm]["union"], "in_repo": records[nm]["in_repo"],
-                            "header": os.path.basename(records[nm]["file"] or ""),
-                            "members": [mn for mn, _, _ in parsed[nm]]} for nm in order],
+                            "header": os.path.basename(records[nm]["file"] or ""), "spelling": records[nm]["spelling"],
+                            "members": [mn for mn, _, _ in parsed[nm]],
+                            "kinds": [member_kind(t) for _, t, _ in parsed[nm]]} for nm in order],
                "enums": [{"name": e["name"], "consts": e["consts"]} for e in enums]},
               open(OUTJ + ".tmp", "w"), indent=0)
     os.replace(OUTJ + ".tmp", OUTJ)
